@@ -10,6 +10,7 @@ use crate::api::*;
 use crate::conc;
 use crate::edits::{p384_negate, unb64, Parts};
 use crate::terms::*;
+use rusty_paseto::prelude::Key;
 use rand::Rng;
 use serde_json::{json, Value};
 
@@ -111,7 +112,14 @@ pub fn library_vs_vectors(vectors: &[Value], out: &mut COut) {
         let a = if assertion.is_empty() || !pr.has_assertion() { None } else { Some(assertion) };
         let mut km = keymat_with([7u8; 32]);
         if purpose == "local" {
-            km.sym.copy_from_slice(&hex::decode(v["key"].as_str().unwrap()).unwrap());
+            // the key as the official vectors give it: a hexadecimal string through Key::try_from
+            match Key::<32>::try_from(v["key"].as_str().unwrap()) {
+                Ok(k) => km.sym.copy_from_slice(k.as_ref()),
+                Err(e) => {
+                    viol(out, format!("official vector {}: Key::<32>::try_from(hex) failed: {:?}", v["name"], e), json!({"kind": "c08-vector", "vector": v}));
+                    continue;
+                }
+            }
         } else if ver == 3 {
             km.p384_sk.copy_from_slice(&hex::decode(v["sk"].as_str().unwrap()).unwrap());
             km.p384_pk.copy_from_slice(&hex::decode(v["pk"].as_str().unwrap()).unwrap());
